@@ -490,16 +490,16 @@ Proof.
   auto 10 using bclash_after_del, sclash_after_del, zclash_after_del.
 Qed.
 
-Lemma Inv_step ix o : Inv ix -> Inv (fst (step ix o)).
+Lemma Inv_step cfg ix o : Inv ix -> Inv (fst (step cfg ix o)).
 Proof.
   intros HI. destruct o as [c|n c|n]; cbn [step].
-  - unfold add. destruct (negb (validate c)); [exact HI|].
-    destruct (deref ix (c_uid c)) eqn:D; [exact HI|].
-    destruct (clashes c ix) eqn:C; try exact HI. cbn [fst]. apply Inv_index_add; assumption.
-  - unfold update. destruct (negb (validate c)); [exact HI|].
+  - unfold add. destruct (validate cfg c); try exact HI. cbv zeta.
+    destruct (deref ix (c_uid (normalize c))) eqn:D; [exact HI|].
+    destruct (clashes (normalize c) ix) eqn:C; try exact HI. cbn [fst]. apply Inv_index_add; assumption.
+  - unfold update. destruct (validate cfg c); try exact HI. cbv zeta.
     destruct (bget n (name_to ix)) as [u|]; [|exact HI].
     destruct (deref ix u) as [stored|] eqn:D; [|exact HI].
-    destruct (clashes (set_uid (c_uid stored) c) ix) eqn:C; try exact HI. cbn [fst].
+    destruct (clashes (set_uid (c_uid stored) (normalize c)) ix) eqn:C; try exact HI. cbn [fst].
     apply Inv_index_add.
     + eapply Inv_index_remove; eassumption.
     + cbn [set_uid c_uid]. apply deref_remove_eq.
@@ -510,24 +510,24 @@ Proof.
 Qed.
 
 (** The invariant holds in every state reachable by any history. *)
-Lemma Inv_run_from ops : forall ix, Inv ix -> Inv (run ops ix).
+Lemma Inv_run_from cfg ops : forall ix, Inv ix -> Inv (run cfg ops ix).
 Proof.
   unfold run. induction ops as [|o ops IH]; cbn; intros ix H; [assumption|].
   apply IH. apply Inv_step; assumption.
 Qed.
 
-Theorem index_consistent : forall ops, Inv (run ops empty_index).
-Proof. intros ops. apply Inv_run_from, Inv_empty. Qed.
+Theorem index_consistent : forall cfg ops, Inv (run cfg ops empty_index).
+Proof. intros cfg ops. apply Inv_run_from, Inv_empty. Qed.
 
 (** * A rejected operation leaves the registry as it was *)
-Lemma failed_op_is_noop : forall ix o ix' e,
-  step ix o = (ix', e) -> e <> EOk -> ix' = ix.
+Lemma failed_op_is_noop : forall cfg ix o ix' e,
+  step cfg ix o = (ix', e) -> e <> EOk -> ix' = ix.
 Proof.
-  intros ix o ix' e H Hne. destruct o as [c|n c|n]; cbn [step] in H.
-  - unfold add in H. destruct (negb (validate c)); [congruence|].
-    destruct (deref ix (c_uid c)); [congruence|].
-    destruct (clashes c ix); congruence.
-  - unfold update in H. destruct (negb (validate c)); [congruence|].
+  intros cfg ix o ix' e H Hne. destruct o as [c|n c|n]; cbn [step] in H.
+  - unfold add in H. destruct (validate cfg c); try congruence. cbv zeta in H.
+    destruct (deref ix (c_uid (normalize c))); [congruence|].
+    destruct (clashes (normalize c) ix); congruence.
+  - unfold update in H. destruct (validate cfg c); try congruence. cbv zeta in H.
     destruct (bget n (name_to ix)); [|congruence].
     destruct (deref ix u); [|congruence].
     destruct (clashes _ ix); congruence.
@@ -596,31 +596,32 @@ Proof.
   - eapply (no_clash_no_share _ _ bget (deref ix) c_macs _ _ _ _ _ k Hm Cm Hd Hne); assumption.
 Qed.
 
-Lemma add_rejects_sharing ix c ix' :
-  Inv ix -> step ix (OAdd c) = (ix', EOk) ->
+Lemma add_rejects_sharing cfg ix c ix' :
+  Inv ix -> step cfg ix (OAdd c) = (ix', EOk) ->
   forall u c', deref ix u = Some c' -> ~ shares c c'.
 Proof.
   intros HI H u c' Hd. cbn [step] in H. unfold add in H.
-  destruct (negb (validate c)); [congruence|].
-  destruct (deref ix (c_uid c)) eqn:D; [congruence|].
-  destruct (clashes c ix) eqn:C; try congruence.
+  destruct (validate cfg c); try congruence. cbv zeta in H.
+  destruct (deref ix (c_uid (normalize c))) eqn:D; [congruence|].
+  destruct (clashes (normalize c) ix) eqn:C; try congruence.
+  change (~ shares (normalize c) c').
   eapply clashes_no_share; eauto. intros ->. congruence.
 Qed.
 
-Lemma update_rejects_sharing ix n c ix' :
-  Inv ix -> step ix (OUpdate n c) = (ix', EOk) ->
+Lemma update_rejects_sharing cfg ix n c ix' :
+  Inv ix -> step cfg ix (OUpdate n c) = (ix', EOk) ->
   forall u c', deref ix u = Some c' -> c_name c' <> n -> ~ shares c c'.
 Proof.
   intros HI H u c' Hd Hn. cbn [step] in H. unfold update in H.
-  destruct (negb (validate c)); [congruence|].
+  destruct (validate cfg c); try congruence. cbv zeta in H.
   destruct (bget n (name_to ix)) as [u0|] eqn:B; [|congruence].
   destruct (deref ix u0) as [stored|] eqn:D; [|congruence].
-  destruct (clashes (set_uid (c_uid stored) c) ix) eqn:C; try congruence.
+  destruct (clashes (set_uid (c_uid stored) (normalize c)) ix) eqn:C; try congruence.
   assert (Eu : c_uid stored = u0) by (eapply inv_uid; eassumption).
   assert (Hne : u <> u0).
   { intros ->. apply (inv_name ix HI) in B. destruct B as (c0 & Hc0 & Hin).
     rewrite Hd in Hc0. inversion Hc0; subst c0. cbn in Hin. destruct Hin as [E|[]]. congruence. }
-  intros Hs. apply (clashes_no_share ix (set_uid (c_uid stored) c) u c' HI C Hd).
+  intros Hs. apply (clashes_no_share ix (set_uid (c_uid stored) (normalize c)) u c' HI C Hd).
   - cbn [set_uid c_uid]. congruence.
   - exact Hs.
 Qed.
@@ -733,8 +734,16 @@ Qed.
 Definition ex_client (u : uid) (name : bytes) cids ips subnets macs (own ownb : bool) : client :=
   {| c_uid := u; c_name := name; c_cids := cids; c_ips := ips; c_subnets := subnets; c_macs := macs;
      c_own_settings := own; c_filtering := true; c_safesearch := false; c_safebrowsing := true;
-     c_parental := false; c_own_blocked := ownb; c_blocked := Some [[120]];
-     c_ignore_qlog := false; c_ignore_stats := false |}.
+     c_parental := false; c_own_blocked := ownb;
+     c_blocked := Some {| b_ids := [[120]]; b_sched := []; b_zone := 0 |};
+     c_ignore_qlog := false; c_ignore_stats := false;
+     c_tags := [[117;115;101;114;95;99;104;105;108;100]; [100;101;118;105;99;101;95;116;118]];
+     c_upstreams := [[35;32;99]; [91;47;108;97;110;47;93;49;48;46;48;46;48;46;49]; [49;46;49;46;49;46;49]] |}.
+
+(** allowed tags "device_tv", "user_child"; every token is an acceptable upstream address *)
+Definition ex_cfg : config :=
+  {| cfg_tags := [[100;101;118;105;99;101;95;116;118]; [117;115;101;114;95;99;104;105;108;100]];
+     cfg_addr_ok := fun _ => true |}.
 
 Definition v4 (a b c d : N) : addr := ([a; b; c; d], []).
 Definition fe80_1 (zone : bytes) : addr := ([254;128;0;0;0;0;0;0;0;0;0;0;0;0;0;1], zone).
@@ -748,7 +757,7 @@ Definition ex_ops : list op :=
     OUpdate [99] (ex_client 9 [100] [] [v4 10 9 9 9; fe80_1 [101;116;104;48]] [([10;1;0;0], 16)] [[170;187;204;221;238;1]] true true);
     ORemove [122] ].
 
-Definition ex_ix : index := run ex_ops empty_index.
+Definition ex_ix : index := run ex_cfg ex_ops empty_index.
 Definition ex_dhcp (a : addr) : option bytes :=
   if addr_eqb a (v4 192 168 1 5) then Some [170;187;204;221;238;1] else None.
 
@@ -768,17 +777,17 @@ Lemma example_registry :
   acf_find ex_ix ex_dhcp [] (fe80_1 [101;116;104;49]) = Some 1 /\
   acf_find ex_ix ex_dhcp [] (fe80_1 []) = Some 1 /\
   (* rejected operations *)
-  snd (step ex_ix (OAdd (ex_client 5 [101] [] [v4 10 9 9 9] [] [] true true))) = EIP /\
-  snd (step ex_ix (OUpdate [97] (ex_client 6 [98] [] [] [([10;0;0;0], 8)] [] true true))) = EName /\
+  snd (step ex_cfg ex_ix (OAdd (ex_client 5 [101] [] [v4 10 9 9 9] [] [] true true))) = EIP /\
+  snd (step ex_cfg ex_ix (OUpdate [97] (ex_client 6 [98] [] [] [([10;0;0;0], 8)] [] true true))) = EName /\
   (* an accepted update that keeps its own identifiers *)
-  snd (step ex_ix (OUpdate [97] (ex_client 7 [97] [] [] [([10;0;0;0], 8); ([10;2;0;0], 8)] [] false false))) = EOk.
+  snd (step ex_cfg ex_ix (OUpdate [97] (ex_client 7 [97] [] [] [([10;0;0;0], 8); ([10;2;0;0], 8)] [] false false))) = EOk.
 Proof. split; [apply index_consistent|]. vm_compute. repeat split; reflexivity. Qed.
 
 Lemma resolution_full ix : Inv ix -> resolution_statement ix /\ owners_unique_statement ix.
 Proof. intros H; split; [exact (resolution ix H)|exact (owners_unique ix H)]. Qed.
 
-Lemma resolution_any_history ops :
-  resolution_statement (run ops empty_index) /\ owners_unique_statement (run ops empty_index).
+Lemma resolution_any_history cfg ops :
+  resolution_statement (run cfg ops empty_index) /\ owners_unique_statement (run cfg ops empty_index).
 Proof. apply resolution_full, index_consistent. Qed.
 
 Lemma precedence_unique ix dhcp id a r1 r2 :
